@@ -547,11 +547,11 @@ func sameOrigin(a, b ssa.Value) bool {
 
 // lbConstReviewed: constant-index reads whose guard is relational or established elsewhere.
 var lbConstReviewed = map[string]string{
-	"constindex|formats/json.(*scanner).newDocumentErrorAtCharacter|[]rune(…)[0]":                        "the runes come from data[index-1:], which holds at least the byte just consumed (index >= 1 after Next's increment)",
-	"constindex|notations/jschema/internal/scanner.(*Scanner).newDocumentErrorAtCharacter|[]rune(…)[0]":  "same: data[index-1:] is never empty inside a step function",
-	"constindex|rules/enum.(*scanner).newDocumentErrorAtCharacter|[]rune(…)[0]":                          "same: data[index-1:] is never empty inside a step function",
-	"constindex|internal/json.(*Number).trimLeadingZerosInTheIntegerPart|.nat[0]":                        "the loop runs at most len(nat)-exp times (exp <= len(nat) is checked first) and removes one byte per turn, so nat is not empty when read",
-	"constindex|notations/jschema/internal/schema/constraint.(*TypesList).AddNameWithASTNode|name[0]":    "names come from or-items and type shortcuts; the first name of a shortcut starts with @ and once hasUserTypes is true the index is short-circuited; or-items are validated as known types before they are recorded (an empty one is reported as code 102)",
+	"constindex|formats/json.(scanner).newDocumentErrorAtCharacter|[]rune(…)[0]":                         "the runes come from data[index-1:], which holds at least the byte just consumed (index >= 1 after Next's increment)",
+	"constindex|notations/jschema/internal/scanner.(Scanner).newDocumentErrorAtCharacter|[]rune(…)[0]":   "same: data[index-1:] is never empty inside a step function",
+	"constindex|rules/enum.(scanner).newDocumentErrorAtCharacter|[]rune(…)[0]":                           "same: data[index-1:] is never empty inside a step function",
+	"constindex|internal/json.(Number).trimLeadingZerosInTheIntegerPart|.nat[0]":                         "the loop runs at most len(nat)-exp times (exp <= len(nat) is checked first) and removes one byte per turn, so nat is not empty when read",
+	"constindex|notations/jschema/internal/schema/constraint.(TypesList).AddNameWithASTNode|name[0]":     "names come from or-items and type shortcuts; the first name of a shortcut starts with @ and once hasUserTypes is true the index is short-circuited; or-items are validated as known types before they are recorded (an empty one is reported as code 102)",
 	"constindex|notations/jschema/internal/loader.checkBranchNodeWithOrConstraint|element of Names()[0]": "same names as above: an empty or-item is rejected (code 102) before this check runs",
 	"constindex|bytes.(Bytes).ParseInt|b[0]":                                                             "called with the exponent text of a scanned numeral (value[expBegin:]), which starts at a sign or digit",
 	"constindex|bytes.(Bytes).TrimSquareBrackets|b[0]":                                                   "under lastCharIndex > 0 in the same condition (len(b) >= 2)",
@@ -564,7 +564,7 @@ var lbConstReviewed = map[string]string{
 // lbConstShape: the conditions a reviewed read stood under when it was reviewed (where the reason
 // depends on them). A read that has moved out from under its guard is reported again.
 var lbConstShape = map[string]string{
-	"constindex|notations/jschema/internal/schema/constraint.(*TypesList).AddNameWithASTNode|name[0]": ".hasUserTypes=false",
+	"constindex|notations/jschema/internal/schema/constraint.(TypesList).AddNameWithASTNode|name[0]": ".hasUserTypes=false",
 }
 
 // guardShape lists the branch outcomes that dominate an instruction (condition, outcome).
@@ -1598,9 +1598,9 @@ var nxReviewed = map[string]struct {
 	n   int
 	why string
 }{
-	"internal/json.(*scanner).Scan":                                {2, "the automaton refused a byte; the numeral ended in a state that needs more bytes (both are SA-N's verdicts)"},
-	"internal/json.(*Number).trimLeadingZerosInTheIntegerPart":     {1, "guard exp < 0 || exp > len(nat): Scan sets exp = fraLen and nat of length intLen+fraLen padded by getNatural, so it cannot fire"},
-	"internal/json.(*Number).trimTrailingZerosInTheFractionalPart": {1, "same guard, same reason"},
+	"internal/json.(scanner).Scan":                                {2, "the automaton refused a byte; the numeral ended in a state that needs more bytes (both are SA-N's verdicts)"},
+	"internal/json.(Number).trimLeadingZerosInTheIntegerPart":     {1, "guard exp < 0 || exp > len(nat): Scan sets exp = fraLen and nat of length intLen+fraLen padded by getNatural, so it cannot fire"},
+	"internal/json.(Number).trimTrailingZerosInTheFractionalPart": {1, "same guard, same reason"},
 }
 
 func runNX1(c *load.Ctx, r *report.RuleResult) {
